@@ -1322,7 +1322,7 @@ pub(crate) mod __verif {
         j3_check(two, false);
     }
 
-    // @obligation name=j3_replace_with_first props=C17 fn=api::Regex::replace_with,api::Regex::find kind=bounded bound="haystack \"a\u{e9}\"; every oracle; closure result \"#\"" min_checks=300 w=3 timeout=1500 ignore_free_model=1
+    // @obligation name=j3_replace_with_first props=C17 fn=api::Regex::replace_with,api::Regex::find kind=bounded bound="haystack \"a\u{e9}\"; every oracle; closure result \"#\"" min_checks=300 w=2 timeout=1500 ignore_free_model=1
     // replace_with replaces exactly the first match and preserves the rest; no match -> unchanged.
     #[kani::proof]
     #[kani::unwind(8)]
@@ -1332,7 +1332,7 @@ pub(crate) mod __verif {
         j3_body(true, true);
     }
 
-    // @obligation name=j3_replace_template_first props=C17 fn=api::Regex::replace,api::Regex::find,api::Regex::expand_replacement kind=bounded bound="haystack \"a\u{e9}\"; every oracle (every possible first match); template \"[$0]\"" min_checks=300 w=3 timeout=1500 ignore_free_model=1
+    // @obligation name=j3_replace_template_first props=C17 fn=api::Regex::replace,api::Regex::find,api::Regex::expand_replacement kind=bounded bound="haystack \"a\u{e9}\"; every oracle (every possible first match); template \"[$0]\"" min_checks=300 w=2 timeout=1500 ignore_free_model=1
     // replace == haystack[..s] ++ "[" ++ haystack[s..e] ++ "]" ++ haystack[e..] for the first match s..e, and the haystack
     // itself when there is no match (template expansion spliced at the match, everything else preserved byte for byte).
     #[kani::proof]
@@ -1475,7 +1475,7 @@ pub(crate) mod __verif {
         kani::cover!(n == 3 && unsafe { SCRIPT[0] == (0, 0) && SCRIPT[1].0 == 1 }, "adjacent and empty matches");
     }
 
-    // @obligation name=j3_replace_all_with_marker props=C17 fn=api::Regex::replace_all_with,api::Regex::find_iter,exec::Matches::next,classicalbacktrack::BacktrackExecutor::next_match kind=bounded bound="haystack \"a\u{e9}b\" (4 bytes, a 2-byte char); EVERY match sequence of up to 3 matches the iterator contract allows (symbolic ranges on boundaries, empty and adjacent matches included); closure result \"#\"; the search driver next_match_with_prefix_search is replaced by its contract (Verus unit cv_drivers)" min_checks=300 w=3 timeout=1500 ignore_free_model=1
+    // @obligation name=j3_replace_all_with_marker props=C17 fn=api::Regex::replace_all_with,api::Regex::find_iter,exec::Matches::next,classicalbacktrack::BacktrackExecutor::next_match kind=bounded bound="haystack \"a\u{e9}b\" (4 bytes, a 2-byte char); EVERY match sequence of up to 3 matches the iterator contract allows (symbolic ranges on boundaries, empty and adjacent matches included); closure result \"#\"; the search driver next_match_with_prefix_search is replaced by its contract (Verus unit cv_drivers)" min_checks=300 w=2 timeout=1500 ignore_free_model=1
     // replace_all_with == splice specification: every match of the sequence replaced by the closure's result, all unmatched
     // text preserved byte for byte and in order; no match -> the haystack unchanged.
     #[kani::proof]
@@ -1485,7 +1485,7 @@ pub(crate) mod __verif {
         j3_all_body(0);
     }
 
-    // @obligation name=j3_replace_all_with_identity props=C17 fn=api::Regex::replace_all_with kind=bounded bound="as j3_replace_all_with_marker; closure result = the match's own text" min_checks=300 w=3 timeout=1500 ignore_free_model=1
+    // @obligation name=j3_replace_all_with_identity props=C17 fn=api::Regex::replace_all_with kind=bounded bound="as j3_replace_all_with_marker; closure result = the match's own text" min_checks=300 w=2 timeout=1500 ignore_free_model=1
     // Replacing every match by its own text is the identity.
     #[kani::proof]
     #[kani::unwind(6)]
@@ -1494,7 +1494,7 @@ pub(crate) mod __verif {
         j3_all_body(1);
     }
 
-    // @obligation name=j3_replace_all_template props=C17:t fn=api::Regex::replace_all,api::Regex::expand_replacement kind=bounded bound="as j3_replace_all_with_marker; template \"[$0]\"" min_checks=300 w=3 timeout=1500 ignore_free_model=1
+    // @obligation name=j3_replace_all_template props=C17:t fn=api::Regex::replace_all,api::Regex::expand_replacement kind=bounded bound="as j3_replace_all_with_marker; template \"[$0]\"" min_checks=300 w=2 timeout=1500 ignore_free_model=1
     // replace_all == splice specification with each match replaced by the template's expansion "[" ++ match text ++ "]".
     #[kani::proof]
     #[kani::unwind(6)]
@@ -1503,7 +1503,7 @@ pub(crate) mod __verif {
         j3_all_body(2);
     }
 
-    // @obligation name=j3_replace_all_literal props=C17 fn=api::Regex::replace_all,api::Regex::expand_replacement kind=bounded bound="as j3_replace_all_with_marker; template \"#\" (no references)" min_checks=300 w=3 timeout=1500 ignore_free_model=1
+    // @obligation name=j3_replace_all_literal props=C17 fn=api::Regex::replace_all,api::Regex::expand_replacement kind=bounded bound="as j3_replace_all_with_marker; template \"#\" (no references)" min_checks=300 w=2 timeout=1500 ignore_free_model=1
     // replace_all == splice specification with each match replaced by the literal template.
     #[kani::proof]
     #[kani::unwind(6)]
